@@ -71,6 +71,7 @@ structure Rel (p : PSt) (s : St) : Prop where
   nodes : p.nodes = s.nodes
   log : p.log = s.log
   exited : ∀ id, (findP p.ents id).map (·.exited) = (findE s.ents id).map (·.exited)
+  isnil : ∀ id, (findP p.ents id).map (·.isNil) = (findE s.ents id).map (·.blocked)
   live : ∀ id pe, findP p.ents id = some pe → pe.exited = false →
       pe.ctx < p.store.length ∧ findE s.ents id = some (p.store.getD pe.ctx freshCtx)
   free_ok : ∀ i ∈ p.free, i < p.store.length ∧ isReset (p.store.getD i freshCtx)
@@ -80,7 +81,7 @@ structure Rel (p : PSt) (s : St) : Prop where
       pe.exited = false → pe'.exited = false → id ≠ id' → pe.ctx ≠ pe'.ctx
 
 theorem rel_init (t0 : Nat) : Rel (init t0) (Entry.init t0) :=
-  ⟨rfl, rfl, rfl, fun _ => rfl, fun _ _ h => by simp [init, findP] at h, fun _ h => by simp [init] at h,
+  ⟨rfl, rfl, rfl, fun _ => rfl, fun _ => rfl, fun _ _ h => by simp [init, findP] at h, fun _ h => by simp [init] at h,
    List.nodup_nil, fun _ _ h => by simp [init, findP] at h, fun _ _ _ _ h => by simp [init, findP] at h⟩
 
 theorem core_eq {p : PSt} {s : St} (r : Rel p s) : p.core = { s with ents := [] } := by
@@ -125,11 +126,18 @@ theorem rel_trace {p : PSt} {s : St} (r : Rel p s) (id : Nat) (err : Option Stri
           obtain ⟨hlen, hfe⟩ := r.live id pe hp hpf
           have hc : c = p.store.getD pe.ctx freshCtx := by rw [hs] at hfe; exact Option.some.inj hfe
           simp only []
-          refine ⟨r.inb, r.nodes, r.log, ?_, ?_, ?_, r.free_nd, r.live_nf, r.live_inj⟩
+          refine ⟨r.inb, r.nodes, r.log, ?_, ?_, ?_, ?_, r.free_nd, r.live_nf, r.live_inj⟩
           · intro id'
             by_cases hid : id = id'
             · subst hid; simp [hp, hpf, hcf]
             · simp only [Entry.findE_cons, hid, if_false]; exact r.exited id'
+          · intro id'
+            by_cases hid : id = id'
+            · subst hid
+              have := r.isnil id
+              rw [hp, hs] at this
+              simpa [hp] using this
+            · simp only [Entry.findE_cons, hid, if_false]; exact r.isnil id'
           · intro id' pe' hp' hl'
             by_cases hid : id = id'
             · subst hid
@@ -197,11 +205,18 @@ theorem rel_exit {p : PSt} {s : St} (r : Rel p s) (t id : Nat) (err : Option Str
         rw [hcore]
         unfold poolPut
         simp only [withCore_store, withCore_free, withCore_ents, PSt.withCore]
-        refine ⟨rfl, rfl, rfl, ?_, ?_, ?_, ?_, ?_, ?_⟩
+        refine ⟨rfl, rfl, rfl, ?_, ?_, ?_, ?_, ?_, ?_, ?_⟩
         · intro id'
           by_cases hid : id = id'
           · subst hid; simp
           · simp only [findP_cons, Entry.findE_cons, hid, if_false, hsents]; exact r.exited id'
+        · intro id'
+          by_cases hid : id = id'
+          · subst hid
+            have := r.isnil id
+            rw [hp, hs] at this
+            simpa [c1] using this
+          · simp only [findP_cons, Entry.findE_cons, hid, if_false, hsents]; exact r.isnil id'
         · intro id' pe' hp' hl'
           by_cases hid : id = id'
           · subst hid; simp at hp'; subst hp'; simp at hl'
@@ -269,14 +284,14 @@ theorem poolGet_spec {p : PSt} {s : St} (r : Rel p s) (pick : Nat) :
   | some i =>
     have hi : i ∈ p.free := List.mem_of_getElem? hg
     simp only []
-    refine ⟨⟨r.inb, r.nodes, r.log, r.exited, r.live, ?_, r.free_nd.eraseIdx pick, ?_, r.live_inj⟩,
+    refine ⟨⟨r.inb, r.nodes, r.log, r.exited, r.isnil, r.live, ?_, r.free_nd.eraseIdx pick, ?_, r.live_inj⟩,
       (r.free_ok i hi).1, (r.free_ok i hi).2, not_mem_eraseIdx_of_nodup r.free_nd hg, ?_⟩
     · intro j hj; exact r.free_ok j (List.mem_of_mem_eraseIdx hj)
     · intro id pe hp hl hm; exact r.live_nf id pe hp hl (List.mem_of_mem_eraseIdx hm)
     · intro id pe hp hl e; exact r.live_nf id pe hp hl (e ▸ hi)
   | none =>
     simp only []
-    refine ⟨⟨r.inb, r.nodes, r.log, r.exited, ?_, ?_, r.free_nd, r.live_nf, r.live_inj⟩, by simp, ?_, ?_, ?_⟩
+    refine ⟨⟨r.inb, r.nodes, r.log, r.exited, r.isnil, ?_, ?_, r.free_nd, r.live_nf, r.live_inj⟩, by simp, ?_, ?_, ?_⟩
     · intro id pe hp hl
       obtain ⟨h1, h2⟩ := r.live id pe hp hl
       refine ⟨by simp; omega, ?_⟩
@@ -295,6 +310,14 @@ theorem chainEntry_exited (fix : Bool) (s : St) (c : Ctx) (t : Nat) : (chainEntr
   | pass => rfl
   | block => rfl
   | panic => cases fix <;> rfl
+
+theorem chainEntry_blocked (fix : Bool) (s : St) (c : Ctx) (t : Nat) (hb : c.blocked = false) :
+    (chainEntry fix s c t).2.1.blocked = decide ((chainEntry fix s c t).2.2 = some Out.block) := by
+  rw [chainEntry_eq]
+  cases outcome c.e.chain with
+  | pass => simp
+  | block => simp
+  | panic => cases fix <;> simp [recoverPanic, hb]
 
 theorem statPassed_keeps_ents (s : St) (c : Ctx) (t : Nat) : (statPassed s c t).ents = s.ents := by
   unfold statPassed onStat; split_ifs <;> rfl
@@ -352,30 +375,35 @@ theorem rel_entry {p : PSt} {s : St} (r : Rel p s) (fix : Bool) (t : Nat) (e : E
       set c0 : Ctx := { e := e, start := t, err := none, hasNode := false, blocked := false, exited := false } with hc0
       have hRex : (chainEntry fix s c0 t).2.1.exited = false := chainEntry_exited fix s c0 t
       have hRents : (chainEntry fix s c0 t).1.ents = s.ents := chainEntry_keeps_ents fix s c0 t
-      generalize chainEntry fix s c0 t = R at hRex hRents ⊢
+      have hRb := chainEntry_blocked fix s c0 t rfl
+      generalize chainEntry fix s c0 t = R at hRex hRents hRb ⊢
       obtain ⟨s2, c2, res⟩ := R
-      simp only at hRex hRents ⊢
+      simp only at hRex hRents hRb ⊢
       have rr := H.rel
-      have hblockcase : ∀ (b : Bool),
+      have hblockcase : ∀ (b : Bool), c2.blocked = b →
           Rel (if b then poolPut { (p1.withCore { s2 with ents := [] }) with
                   store := (p1.withCore { s2 with ents := [] }).store.set i c2,
-                  ents := (e.id, { ctx := i, exited := true }) :: p1.ents } i
+                  ents := (e.id, { ctx := i, exited := true, isNil := true }) :: p1.ents } i
                else { (p1.withCore { s2 with ents := [] }) with
                   store := (p1.withCore { s2 with ents := [] }).store.set i c2,
                   ents := (e.id, { ctx := i, exited := false }) :: p1.ents })
               (if b then { s2 with ents := (e.id, { c2 with exited := true }) :: s2.ents }
                else { s2 with ents := (e.id, c2) :: s2.ents }) := by
-        intro b
+        intro b hcb
         cases b with
         | true =>
           simp only [if_true]
           unfold poolPut
           simp only [PSt.withCore]
-          refine ⟨rfl, rfl, rfl, ?_, ?_, ?_, ?_, ?_, ?_⟩
+          refine ⟨rfl, rfl, rfl, ?_, ?_, ?_, ?_, ?_, ?_, ?_⟩
           · intro id'
             by_cases hid : e.id = id'
             · subst hid; simp
             · simp only [findP_cons, Entry.findE_cons, hid, if_false, hRents]; exact rr.exited id'
+          · intro id'
+            by_cases hid : e.id = id'
+            · subst hid; simp [hcb]
+            · simp only [findP_cons, Entry.findE_cons, hid, if_false, hRents]; exact rr.isnil id'
           · intro id' pe' hp' hl'
             by_cases hid : e.id = id'
             · subst hid; simp at hp'; subst hp'; simp at hl'
@@ -413,11 +441,15 @@ theorem rel_entry {p : PSt} {s : St} (r : Rel p s) (fix : Bool) (t : Nat) (e : E
                 exact rr.live_inj id1 id2 pe1 pe2 hp1 hp2 hl1 hl2 hne
         | false =>
           simp only [Bool.false_eq_true, if_false, PSt.withCore]
-          refine ⟨rfl, rfl, rfl, ?_, ?_, ?_, rr.free_nd, ?_, ?_⟩
+          refine ⟨rfl, rfl, rfl, ?_, ?_, ?_, ?_, rr.free_nd, ?_, ?_⟩
           · intro id'
             by_cases hid : e.id = id'
             · subst hid; simp [hRex]
             · simp only [findP_cons, Entry.findE_cons, hid, if_false, hRents]; exact rr.exited id'
+          · intro id'
+            by_cases hid : e.id = id'
+            · subst hid; simp [hcb]
+            · simp only [findP_cons, Entry.findE_cons, hid, if_false, hRents]; exact rr.isnil id'
           · intro id' pe' hp' hl'
             by_cases hid : e.id = id'
             · subst hid; simp at hp'; subst hp'
@@ -452,12 +484,12 @@ theorem rel_entry {p : PSt} {s : St} (r : Rel p s) (fix : Bool) (t : Nat) (e : E
               · simp only [findP_cons, h1, h2, if_false] at hp1 hp2
                 exact rr.live_inj id1 id2 pe1 pe2 hp1 hp2 hl1 hl2 hne
       cases res with
-      | none => simpa [PSt.withCore] using hblockcase false
+      | none => simpa [PSt.withCore] using hblockcase false (by simpa using hRb)
       | some o =>
         cases o with
-        | block => simpa [PSt.withCore] using hblockcase true
-        | pass => simpa [PSt.withCore] using hblockcase false
-        | panic => simpa [PSt.withCore] using hblockcase false
+        | block => simpa [PSt.withCore] using hblockcase true (by simpa using hRb)
+        | pass => simpa [PSt.withCore] using hblockcase false (by simpa using hRb)
+        | panic => simpa [PSt.withCore] using hblockcase false (by simpa using hRb)
 
 theorem rel_step {p : PSt} {s : St} (r : Rel p s) (fix : Bool) (x : TOp) (pick : Nat) :
     Rel (step fix p x pick) (Entry.step fix s x) := by
